@@ -184,8 +184,10 @@ class Flow:
             if a is not None and b is not None and (a is b or self.tab.equal(a, b)):
                 merged[k] = a
             else:
-                ua = a if a is not None else self.tab.atom('undef', (k,))
-                ub = b if b is not None else self.tab.atom('undef', (k,))
+                # a name with no local definition on one side denotes the
+                # parameter / global of that name
+                ua = a if a is not None else self.tab.name(k)
+                ub = b if b is not None else self.tab.name(k)
                 merged[k] = self.tab.atom('guard', (test_rf, ua, ub))
         self.conv.env.clear()
         self.conv.env.update(merged)
